@@ -37,4 +37,36 @@ def lengthBytes (a : Archive) : Nat := (a.map (fun e => memberBytes e.2)).sum
 /-- what is on disk when the writer is killed after its k-th completed append -/
 def crashAfter (k : Nat) (a : Archive) : Archive := a.take k
 
+-- archives made by `tar` / tarfile.add rather than by add_array_to_tar -------------------------------------------------------
+
+/-- a member: data, or a link (two names of one inode are stored once, the second as LNKTYPE naming the first; a symbolic link is
+  stored as SYMTYPE).  `hard t`: the bytes are those of the latest member named `t` BEFORE this one; `sym t`: of the latest member
+  named `t` in the WHOLE archive (`t` = the link name seen from the link's folder, normalised: the harness does that join).
+  `findLatest` is TarFile._getmember, `resolve` is TarFile.extractfile (a search that fails is a KeyError, one that goes round in
+  circles a RecursionError: nothing is read), `readL` is TarHandler.get_array_from_tar on the LAST member of the name. -/
+inductive Member where
+  | data (b : Blob)
+  | hard (target : String)
+  | sym (target : String)
+deriving Repr, DecidableEq
+
+abbrev LArchive := List (String × Member)
+
+def findLatestRev : List (String × Member) → String → Option (Nat × Member)
+  | [], _ => none
+  | e :: older, n => if e.1 == n then some (older.length, e.2) else findLatestRev older n
+
+def findLatest (a : LArchive) (bound : Nat) (n : String) : Option (Nat × Member) := findLatestRev (a.take bound).reverse n
+
+def resolve (a : LArchive) : Nat → Nat × Member → Option Blob
+  | 0, _ => none
+  | _ + 1, (_, Member.data b) => some b
+  | fuel + 1, (i, Member.hard t) => (findLatest a i t).bind (resolve a fuel)
+  | fuel + 1, (_, Member.sym t) => (findLatest a a.length t).bind (resolve a fuel)
+
+def readL (a : LArchive) (n : String) : Option Blob := (findLatest a a.length n).bind (resolve a (a.length + 1))
+
+def plain (a : Archive) : LArchive := a.map (fun e => (e.1, Member.data e.2))
+
+
 end Kapture.C12
